@@ -32,7 +32,7 @@ def reals(tier):
         P.append((c, src))
     ints = [0, 1, -1, 2, 2 ** 53 - 1, 2 ** 53, 2 ** 53 + 1, 2 ** 63 - 1, 2 ** 63, 2 ** 63 + 1, -2 ** 63, -2 ** 63 - 1,
             2 ** 64, 2 ** 1000, -(2 ** 1000), 2 ** 1024]
-    if tier == "quick":
+    if tier == "tiny":
         ints = [0, 1, -1, 2 ** 53, 2 ** 53 + 1, 2 ** 63, -2 ** 63 - 1, 2 ** 64, 2 ** 1024]
     for v in ints:
         add(cI(v), lit_int(v))
@@ -41,7 +41,7 @@ def reals(tier):
           Fraction(3602879701896397, 36028797018963968) + Fraction(1, 2 ** 80),
           Fraction(2 ** 54 + 1, 2), Fraction(2 ** 64 + 1, 2 ** 64), Fraction(-(2 ** 100) - 1, 3), Fraction(1, 2 ** 1080),
           Fraction(2 ** 1030, 3)]
-    if tier == "quick":
+    if tier == "tiny":
         fr = fr[:5] + fr[8:]
     for f in fr:
         add(cQ(f), lit_frac(f))
@@ -49,7 +49,7 @@ def reals(tier):
     add(["q", "1", "1"], "(3/3)")
     fl = [0.0, -0.0, 0.5, -0.5, 0.1, 1.0, 2.0, 2.0 ** 53, 2.0 ** 53 + 2, 2.0 ** 63, -(2.0 ** 63), 2.0 ** 64, 1.7976931348623157e308,
           5e-324, -5e-324, math.inf, -math.inf, 1 / 3]
-    if tier == "quick":
+    if tier == "tiny":
         fl = [0.0, -0.0, 0.5, 0.1, 1.0, 2.0 ** 53, 2.0 ** 63, 2.0 ** 64, 5e-324, math.inf, -math.inf]
     for x in fl:
         add(cF(x), lit_float(x))
@@ -92,7 +92,7 @@ def sub_pool():
 
 def bounds(tier):
     return {"reals": len(reals(tier)), "comparison_forms": CMP + ["min", "max"], "sort_pool": len(sub_pool()),
-            "sort_max_len": 3 if tier == "quick" else 4, "lex_pool": 4, "kinds": len(OTHERS)}
+            "sort_max_len": 3 if tier == "tiny" else 4, "lex_pool": 4, "kinds": len(OTHERS)}
 
 
 def cases(tier, shard, nshards):
@@ -109,7 +109,7 @@ def cases(tier, shard, nshards):
             yield Case("max(%s, %s)" % (sa, sb), {"k": "minmax", "op": "max", "a": ca, "b": cb})
     # sorting / extrema of every short list over the sub-pool
     S = sub_pool()
-    maxlen = 3 if tier == "quick" else 4
+    maxlen = 3 if tier == "tiny" else 4
     for L in range(0, maxlen + 1):
         for idx in itertools.product(range(len(S)), repeat=L):
             n += 1
